@@ -518,6 +518,147 @@ def counters() -> list:
     return res
 
 
+def write_modes(scans) -> list:
+    """every open(...) / <path>.open(...) of the scanned files whose mode creates or modifies a file"""
+    res = []
+    for sc in scans:
+        for node in ast.walk(sc.tree):
+            if not isinstance(node, ast.Call):
+                continue
+            f = node.func
+            if isinstance(f, ast.Name) and f.id == 'open':
+                mode = node.args[1] if len(node.args) > 1 else None
+            elif isinstance(f, ast.Attribute) and f.attr == 'open':
+                mode = node.args[0] if node.args else None
+            else:
+                continue
+            for kw in node.keywords:
+                if kw.arg == 'mode':
+                    mode = kw.value
+            if mode is None:
+                continue                       # default 'r'
+            if not (isinstance(mode, ast.Constant) and isinstance(mode.value, str)):
+                # e.g. webbrowser.open(url): first argument is not a mode; only a str constant is a mode
+                if isinstance(f, ast.Attribute) and not (isinstance(mode, ast.Constant)):
+                    continue
+                raise Shape('unrecognised shape: open() with a computed mode at %s:%d' % (sc.rel, node.lineno))
+            m = mode.value
+            if not any(c in m for c in 'wax+'):
+                continue
+            kind = 'WTrunc' if ('w' in m and 'a' not in m and 'x' not in m) else ('WAppend' if 'a' in m else ('WExcl' if 'x' in m else 'WUpdate'))
+            res.append((sc.rel, node.lineno, kind, m))
+    need = {'templatewriter/writer.py': 2, 'templatewriter/__init__.py': 1, 'templatewriter/search.py': 1, 'sphinx.py': 1}
+    for rel, n in need.items():
+        got = len([r for r in res if r[0] == rel])
+        if got < n:
+            raise Shape('expected at least %d writing open() calls in %s, found %d' % (n, rel, got))
+    return res
+
+
+def relink_shape(scans) -> bool:
+    """writer.writeSummaryPages: the compat symlink is removed (FileNotFoundError tolerated) and created again"""
+    sc = [x for x in scans if x.rel == 'templatewriter/writer.py'][0]
+    for node in ast.walk(sc.tree):
+        if isinstance(node, ast.FunctionDef) and node.name == 'writeSummaryPages':
+            for st in ast.walk(node):
+                if isinstance(st, ast.If) and ast.unparse(st.test) == 'len(system.root_names) == 1':
+                    body = [ast.unparse(x) for x in st.body]
+                    want_try = 'try:\n    root_module_path.unlink()\nexcept FileNotFoundError:\n    pass'
+                    if (len(body) == 2 and body[0].startswith('root_module_path = ') and isinstance(st.body[1], ast.If)
+                            and ast.unparse(st.body[1].test) == "root_module_path.name != 'index.html'"
+                            and not st.body[1].orelse
+                            and [ast.unparse(x) for x in st.body[1].body] == [want_try, "root_module_path.symlink_to('index.html')"]):
+                        return True
+                    raise Shape('unrecognised shape: symlink handling in writeSummaryPages:\n' + '\n'.join(body))
+    raise Shape('unrecognised shape: writeSummaryPages has no `if len(system.root_names) == 1` block')
+
+
+CLOCK_CALLS = ('time.time', 'time.monotonic', 'time.perf_counter', 'time.localtime', 'time.gmtime', 'time.strftime',
+               'datetime.datetime.now', 'datetime.now', 'datetime.datetime.utcnow', 'datetime.utcnow',
+               'datetime.datetime.today', 'datetime.date.today', 'date.today')
+
+
+def clock_reads(scans) -> list:
+    """every read of the wall clock in the scanned files with what consumes it:
+       ClkDefaultBuildtime  `self.buildtime = datetime.datetime.now()` in System.__init__ (the default that get_system overrides)
+       ClkLocalTimer        `T = time.time()`                           ClkInMsg   an argument of a <x>.msg(...) call
+       ClkOther             anything else"""
+    res = []
+    for sc in scans:
+        for node in ast.walk(sc.tree):
+            if not (isinstance(node, ast.Call) and ast.unparse(node.func) in CLOCK_CALLS):
+                continue
+            if ast.unparse(node.func) in ('time.strftime',) and node.args[1:]:
+                continue                        # formats a given time
+            p = sc.parent.get(node)
+            ctx = 'ClkOther'
+            if isinstance(p, ast.Assign) and len(p.targets) == 1:
+                t = ast.unparse(p.targets[0])
+                if t == 'self.buildtime' and sc.qual(node) == 'System.__init__':
+                    ctx = 'ClkDefaultBuildtime'
+                elif isinstance(p.targets[0], ast.Name):
+                    # a local timer: every load of it must sit inside a .msg(...) call
+                    fn = sc.enclosing_func(node)
+                    ok = True
+                    for sub in ast.walk(fn):
+                        if isinstance(sub, ast.Name) and sub.id == t and isinstance(sub.ctx, ast.Load):
+                            q = sub
+                            inmsg = False
+                            while q is not None and q is not fn:
+                                if isinstance(q, ast.Call) and isinstance(q.func, ast.Attribute) and q.func.attr == 'msg':
+                                    inmsg = True
+                                q = sc.parent.get(q)
+                            ok = ok and inmsg
+                    ctx = 'ClkLocalTimer' if ok else 'ClkOther'
+            else:
+                q = node
+                while q is not None:
+                    if isinstance(q, ast.Call) and isinstance(q.func, ast.Attribute) and q.func.attr == 'msg' and q is not node:
+                        ctx = 'ClkInMsg'
+                    q = sc.parent.get(q)
+            res.append((sc.rel, node.lineno, ctx, ast.unparse(node)))
+    if not any(c == 'ClkDefaultBuildtime' for _, _, c, _ in res):
+        raise Shape('unrecognised shape: System.__init__ no longer sets self.buildtime = datetime.datetime.now()')
+    return res
+
+
+def buildtime_sources(scans) -> list:
+    """driver.get_system: the assignments to system.buildtime, in order"""
+    sc = [x for x in scans if x.rel == 'driver.py'][0]
+    fn = [n for n in sc.tree.body if isinstance(n, ast.FunctionDef) and n.name == 'get_system']
+    if not fn:
+        raise Shape('driver.get_system not found')
+    out = []
+    for node in ast.walk(fn[0]):
+        if isinstance(node, ast.Assign) and ast.unparse(node.targets[0]) == 'system.buildtime':
+            v = ast.unparse(node.value)
+            p = sc.parent.get(node)
+            if v == "datetime.datetime.utcfromtimestamp(int(os.environ['SOURCE_DATE_EPOCH']))" and isinstance(p, ast.Try) \
+                    and [ast.unparse(h.type) for h in p.handlers] == ['ValueError', 'KeyError'] \
+                    and ast.unparse(p.handlers[1].body[0]) == 'pass':
+                out.append((node.lineno, 'BEnvEpoch'))
+            elif v == 'datetime.datetime.strptime(options.buildtime, BUILDTIME_FORMAT)':
+                q = p
+                while q is not None and not isinstance(q, ast.If):
+                    q = sc.parent.get(q)
+                if q is None or ast.unparse(q.test) != 'options.buildtime':
+                    raise Shape('unrecognised shape: --buildtime assignment is not under `if options.buildtime:`')
+                out.append((node.lineno, 'BOption'))
+            else:
+                raise Shape('unrecognised shape: system.buildtime = %s at driver.py:%d' % (v, node.lineno))
+    out.sort()
+    for sc2 in scans:                      # nobody else may set it
+        for node in ast.walk(sc2.tree):
+            if isinstance(node, (ast.Assign, ast.AugAssign, ast.AnnAssign)):
+                tg = node.targets if isinstance(node, ast.Assign) else [node.target]
+                for t in tg:
+                    if isinstance(t, ast.Attribute) and t.attr == 'buildtime':
+                        where = (sc2.rel, sc2.qual(node))
+                        if where not in (('driver.py', 'get_system'), ('model.py', 'System.__init__')):
+                            raise Shape('unrecognised shape: buildtime assigned in %s:%s' % where)
+    return [k for _, k in out]
+
+
 def coq_text(s: str) -> str:
     return '[' + '; '.join(str(ord(c)) for c in s) + ']'
 
@@ -602,6 +743,20 @@ def generate() -> dict:
     L.append('Definition all_suffixes : list text := [%s].' % '; '.join(coq_text(s) for s in importlib.machinery.all_suffixes()))
     L.append('Definition source_suffixes : list text := [%s].' % '; '.join(coq_text(s) for s in importlib.machinery.SOURCE_SUFFIXES))
     L.append('Definition extension_suffixes : list text := [%s].' % '; '.join(coq_text(s) for s in importlib.machinery.EXTENSION_SUFFIXES))
+    L.append('')
+    wm = write_modes(scans)
+    L.append('(* every open() with a writing mode: how the output files are opened *)')
+    L.append('Definition write_modes : list (N * N * wmode) := [')
+    L.append(';\n'.join('  (%d, %d, %s)  (* %s:%d mode %r *)' % (file_id[rel], line, kind, rel, line, m) for rel, line, kind, m in wm)
+             .replace(')  (*', ')  (*'))
+    L.append('].')
+    L.append('')
+    L.append('Definition relink_is_unlink_then_symlink : bool := %s.' % ('true' if relink_shape(scans) else 'false'))
+    L.append('')
+    L.append('(* wall-clock reads and what consumes them; the assignments to system.buildtime in get_system, in order *)')
+    L.append('Definition clock_reads : list (N * N * clock_ctx) := [%s].' % '; '.join(
+        '(%d, %d, %s)' % (file_id[rel], line, c) for rel, line, c, _ in clock_reads(scans)))
+    L.append('Definition buildtime_sources : list bt_source := [%s].' % '; '.join(buildtime_sources(scans)))
     L.append('')
     L.append('(* process-global counters of the page classes: (file, line-independent) count *)')
     L.append('Definition page_counters : N := %d.  (* %s *)' % (len(cnts), ', '.join('%s.%s' % (c, z) for _, c, z in cnts)))
